@@ -14,6 +14,7 @@ def argmax(
     a: PolyLike,
     axis: Optional[int] = None,
     out: Optional[numpy.ndarray] = None,
+    keepdims: bool = False,
 ) -> Any:
     """
     Return the indices of the maximum values along an axis.
@@ -32,6 +33,9 @@ def argmax(
         out:
             If provided, the result will be inserted into this array. It should
             be of the appropriate shape and dtype.
+        keepdims:
+            If this is set to True, the axes which are reduced are left in the
+            result as dimensions with size one.
 
     Return:
         Array of indices into the array. It has the same shape as `a.shape`
@@ -63,4 +67,4 @@ def argmax(
         graded=options["sort_graded"],
         reverse=options["sort_reverse"],
     )[::-1].reshape(a.shape)
-    return numpy.argmax(proxy, axis=axis, out=out)
+    return numpy.argmax(proxy, axis=axis, out=out, keepdims=keepdims)
